@@ -324,6 +324,63 @@ fn eval_cohort_records(n: usize, p: usize, records: usize, scratch: &Scratch) ->
     })
 }
 
+/// Spectra of several thousand cells (three populations of eight samples): what reaches stdout is
+/// what was counted - mass + skipped = records also when the output crosses the writer's block sizes.
+fn eval_wide_shape(project: Option<&str>, scratch: &Scratch) -> Option<Viol> {
+    let n = 24usize;
+    let mut cs = crate::gen::CallSet::new(n);
+    let records = 40usize;
+    let mut expect_skipped = 0usize;
+    for r in 0..records {
+        let missing_in_p1 = [0usize, 0, 2, 0, 8, 0, 1, 0][r % 8];
+        let gts: Vec<String> = (0..n).map(|j| if (8..8 + missing_in_p1).contains(&j) { "./.".to_string() } else { ["0/0", "0/1", "1/1", "1|0", "0|0"][(j * (r + 3) + r * r) % 5].to_string() }).collect();
+        // without projection any missing sample skips the site; with it only population 1 falling below its target
+        let skipped = match project {
+            None => missing_in_p1 > 0,
+            Some(p) => 2 * (8 - missing_in_p1) < p.split(',').nth(1).and_then(|t| t.parse::<usize>().ok()).unwrap_or(17) - 1,
+        };
+        if skipped {
+            expect_skipped += 1;
+        }
+        cs.push_gts(&gts);
+    }
+    let vcf = crate::gen::to_vcf(&cs).0;
+    let sarg: String = (0..n).map(|j| format!("s{j}=p{}", j / 8)).collect::<Vec<_>>().join(",");
+    let mut args = vec!["create", "-s", &sarg];
+    if let Some(p) = project {
+        args.extend(["--project-shape", p, "--precision", "9"]);
+    }
+    let o = run_sfs(&args, Stdin::Bytes(&vcf), scratch);
+    let stderr = o.stderr_str();
+    let verdict: Result<(), String> = (|| {
+        if !o.ok() {
+            return Err(format!("{} {}", o.status_str(), stderr.trim()));
+        }
+        let (shape, toks) = parse_text_spectrum(&o.stdout_str())?;
+        let cells: usize = shape.iter().product();
+        if toks.len() != cells {
+            return Err(format!("{} values for shape {shape:?} ({cells} cells)", toks.len()));
+        }
+        let vals = parse_f64_tokens(&toks)?;
+        let mass: f64 = vals.iter().sum();
+        let (x, y) = parse_skipped(&stderr).unwrap_or((0, records));
+        if x != expect_skipped || y != records {
+            return Err(format!("reported skipped {x}/{y}, expected {expect_skipped}/{records}"));
+        }
+        if (mass + x as f64 - records as f64).abs() > 1e-9 * records as f64 {
+            return Err(format!("mass {mass:.9} + skipped {x} != {records} records"));
+        }
+        Ok(())
+    })();
+    verdict.err().map(|e| {
+        (
+            format!("C10|cli|wide-shape-mass-not-conserved|{}", if project.is_some() { "project" } else { "no-projection" }),
+            format!("24 samples in 3 populations, {records} records, {args:?}: {e}"),
+            J::obj([("kind", J::s("c10-wide")), ("project", project.map_or(J::Null, J::s))]),
+        )
+    })
+}
+
 fn parse_stream(s: &str) -> Option<Vec<Sym>> {
     s.chars().map(|c| ALPHABET.iter().copied().find(|a| a.letter() == c)).collect()
 }
@@ -485,6 +542,22 @@ pub fn run(tier: Tier) -> i32 {
             extra: vec![],
         });
     }
+    // outputs of several thousand cells
+    {
+        let wj: Vec<Option<&str>> = vec![None, Some("17,16,17"), Some("17,15,16")];
+        let res = par_map(wj.len(), |i| eval_wide_shape(wj[i], &scratch));
+        for v in res.into_iter().flatten() {
+            rep.violation(v.0, v.1, v.2);
+        }
+        rep.part(Part {
+            name: "cli: spectra of thousands of cells".into(),
+            evaluations: wj.len() as u64,
+            nontrivial: wj.len() as u64,
+            note: "24 samples in three populations (17^3 = 4 913 cells), 40 records with 0..8 missing samples in the second population, without projection and projected to 17x16x17 and 17x15x16: as many values as cells, mass + skipped = records, skipped count as expected".into(),
+            exhaustive: true,
+            extra: vec![],
+        });
+    }
     // long projecting cohorts: every record is really projected (a hypergeometric row that sums to one
     // only up to rounding), so whatever accumulates over a stream accumulates here
     {
@@ -538,6 +611,11 @@ pub fn replay(case: &J) -> Option<Vec<String>> {
         args.push(&flag);
         let o = run_sfs(&args, Stdin::Bytes(vcf.as_bytes()), &scratch);
         return Some(if o.ok() == base.ok() && o.stdout == base.stdout { vec![] } else { vec![format!("C10|cli|verbosity-changes-result :: with {flag}: {} {:?}; without: {} {:?}", o.status_str(), o.stdout_str(), base.status_str(), base.stdout_str())] });
+    }
+    if case.get("kind").and_then(|k| k.as_str()) == Some("c10-wide") {
+        let scratch = Scratch::new("c10r");
+        let p = case.get("project").and_then(|p| p.as_str()).map(|p| p.to_string());
+        return Some(eval_wide_shape(p.as_deref(), &scratch).into_iter().map(|(k, w, _)| format!("{k} :: {w}")).collect());
     }
     if case.get("kind").and_then(|k| k.as_str()) == Some("c10-cohort") {
         let scratch = Scratch::new("c10r");
